@@ -53,7 +53,9 @@ var c15cur *c15Out
 func senderSymbols() []string {
 	return []string{"DS0", "DS1", "DS2", "DSmax", "FB1", "FB1dup", "FBunknown", "FBwrongsize", "FBchunk0", "FB2", "RR1", "RRunknown", "FE1", "FEunknown",
 		"END", "DSFIN", "CREDIT", "CREDITBATCH", "FILEDONE", "RESUMEINFO", "UNKNOWN", "TRUNC",
-		"CH0", "CH1", "CHrange", "CHlen0", "CHlong", "CHkey", "CHcrc", "CHtrunc"}
+		"CH0", "CH1", "CHrange", "CHlen0", "CHlong", "CHkey", "CHcrc", "CHtrunc",
+		// frames that name the zero-length file f2 (it has no chunk at all)
+		"FE2", "CHempty", "CHemptybig"}
 }
 
 func runScriptedSender(sc Script) {
@@ -146,6 +148,13 @@ func runScriptedSender(sc Script) {
 					ds[0].Write(encChunkRaw(k1, 0, 4, 0xdeadbeef, []byte("abcd")))
 				case "CHtrunc":
 					ds[1].Write(encChunk(k1, 0, []byte("abcd"))[:11])
+				case "FE2":
+					ctrl.Write(encFileEnd(k2))
+				case "CHempty":
+					ds[0].Write(encChunk(k2, 0, []byte("ab")))
+				case "CHemptybig":
+					// announces 256 MiB for a file without chunks and delivers 5 bytes
+					ds[0].Write(encChunkRaw(k2, 0, 256<<20, 0, []byte("abcde")))
 				}
 			}
 		}
@@ -387,7 +396,7 @@ func c15Cfg() vrt.Config {
 }
 
 func modeC15() {
-	res.Rule = "scripted sender against the real receiver: header variants (wrong magic, every 3rd truncation, absurd length, invalid and odd JSON) and all record/frame sequences up to length 3 (4 in the thorough tier) over a 30-symbol alphabet (one symbol ends the data streams early), after which the script finishes its streams and either closes the connection or leaves it open; scripted receiver against the real sender: every pair (answer to the resume request x answer to FileEnd); non-trivial = every script; distinct by script"
+	res.Rule = "scripted sender against the real receiver: header variants (wrong magic, every 3rd truncation, absurd length, invalid and odd JSON) and all record/frame sequences up to length 3 (4 in the thorough tier) over a 33-symbol alphabet (one symbol ends the data streams early, three name the zero-length file), after which the script finishes its streams and either closes the connection or leaves it open; scripted receiver against the real sender: every pair (answer to the resume request x answer to FileEnd); non-trivial = every script; distinct by script"
 	thorough := vlib.F.Tier == "thorough"
 	st := newStats()
 	var scripts []Script
@@ -414,7 +423,7 @@ func modeC15() {
 	rec(nil)
 	if !thorough {
 		// length 4 over the record symbols that change the receiver's state
-		core := []string{"DS1", "DS2", "FB1", "FB2", "RR1", "FE1", "END", "DSFIN", "CH0", "CH1", "CHkey", "CHcrc", "TRUNC"}
+		core := []string{"DS1", "DS2", "FB1", "FB2", "RR1", "FE1", "FE2", "END", "DSFIN", "CH0", "CH1", "CHkey", "CHcrc", "CHempty", "CHemptybig", "TRUNC"}
 		for _, a := range core {
 			for _, b := range core {
 				for _, c := range core {
